@@ -171,6 +171,8 @@ func (rli *rlItem[K, V]) delete() *rlItem[K, V] {
 	if rli.state == rlLast {
 		return nil
 	}
+	// the removed entry must not stay reachable through a recycled (or still pinned) node
+	rli.key = *new(K)
 	rli.val = *new(V)
 	if rli.refCnt == 0 {
 		if rli.prev != nil {
